@@ -296,3 +296,123 @@ def canonical_text(prog):
     from mc import corpus
 
     return corpus.render(prog)
+
+
+# ===================================================================== fixed
+
+CONT_MARKS = ["&", "1", "+", "x", "$", "9"]
+FIX_COMMENTS = ["C comment", "c", "* star ' \"", "! bang & more", "C     x = 1"]
+
+
+def _fits(prefix, pieces):
+    return len(prefix + "".join(pieces)) <= 72
+
+
+def render_fixed(prog, ch, opts=None):
+    """Fixed-form rendering with choice points: label alignment, indentation
+    after column 6, forced wrap width, an extra wrap at any token boundary,
+    continuation mark, comment lines (C c * !) in gaps and between
+    continuation lines, trailing '!' comments, a character literal cut exactly
+    at column 72, '0' in column 6 of an initial line."""
+    opts = opts or {}
+    from mc import corpus
+
+    lay = Layout()
+    ds = corpus.depths(prog)
+    stmts = [s for s in prog if s.kind != "program_anon"]
+    dss = [d for s, d in zip(prog, ds) if s.kind != "program_anon"]
+    width = ch.pick([72, 40, 26], "wrapwidth")  # last usable column
+    if width != 72:
+        lay.features.add("wrap%d" % width)
+    mark = ch.pick(CONT_MARKS, "mark")
+    if mark != "&":
+        lay.features.add("mark:" + mark)
+    label_right = ch.flag("label_right")
+    step = ch.pick([2, 0], "fixindent")
+    for i, s in enumerate(stmts):
+        toks = stmt_toks(s)
+        label = int(s.label) if s.label else None
+        body = [t for t in toks if t.kind != "label"]
+        if body:
+            body[0].pre = ""
+        g = ch.choose(1 + len(FIX_COMMENTS) + 1, "fgap")
+        if g == 1:
+            lay.lines.append("")
+            lay.features.add("gap")
+        elif g > 1:
+            c = FIX_COMMENTS[g - 2]
+            lay.lines.append(c)
+            lay.comments.append((c, len(lay.lines), None))
+            lay.features.add("gapcomment:" + c[0])
+        lab = ""
+        if s.label:
+            lab = s.label.rjust(5) if label_right else s.label.ljust(5)
+        col6 = " "
+        if ch.flag("col6zero"):
+            col6 = "0"
+            lay.features.add("col6zero")
+        ind = " " * min(step * dss[i], 20)
+        cur = lab.ljust(5) + col6 + ind
+        first_line = len(lay.lines) + 1
+        inner_comments = []
+        # literal cut at column 72: choose a literal char position
+        for j, t in enumerate(body):
+            piece = t.pre + t.text if j else t.text
+            forced = len(cur) + len(piece) > width and len(cur) > 6 + len(ind)
+            extra = False
+            if j > 0 and not forced and _breakable(body, j, False):
+                extra = ch.flag("fwrap")
+            lit_cut = 0
+            if t.kind == "str" and len(t.text) > 2 and opts.get("lit_cuts", True):
+                lit_cut = ch.choose(len(t.text), "fcut")  # cut before char k of the literal
+            if forced or extra:
+                if extra:
+                    lay.features.add("wrap:%s|%s" % (_d(body[j - 1]), _d(t)))
+                lay.lines.append(cur)
+                bc = ch.choose(1 + len(FIX_COMMENTS), "fbetween")
+                if bc:
+                    c = FIX_COMMENTS[bc - 1]
+                    lay.lines.append(c)
+                    inner_comments.append((c, len(lay.lines)))
+                    lay.features.add("between:" + c[0])
+                cur = "     " + mark + ind
+                # blanks at the start of a continuation line are harmless
+                # between tokens; keep the separating blank if there was one
+                piece = t.pre + t.text
+            if lit_cut:
+                # pad so that the first lit_cut characters of the literal end
+                # exactly in column 72
+                head = piece[: len(piece) - len(t.text)] + t.text[:lit_cut]
+                if len(cur) + len(head) > 72:
+                    # does not fit on this line: wrap first at this boundary
+                    lay.lines.append(cur)
+                    cur = "     " + mark
+                    head = t.text[:lit_cut]
+                    piece = t.text
+                pad = 72 - (len(cur) + len(head))
+                # the padding goes in front of the token (outside the literal)
+                lay.lines.append(cur + " " * pad + head)
+                assert len(lay.lines[-1]) == 72
+                lay.features.add("litcut")
+                if t.text[lit_cut - 1] == " ":
+                    lay.features.add("litcut-blank-in-col72")
+                if t.text[lit_cut - 1] == "&":
+                    lay.features.add("litcut-amp-in-col72")
+                cur = "     " + mark + t.text[lit_cut:]
+            else:
+                cur += piece
+        tc = None
+        if ch.flag("ftrail"):
+            tc = "! trailing"
+            lay.features.add("trailing")
+        last_line = len(lay.lines) + 1
+        lay.lines.append(cur + (" " + tc if tc else ""))
+        exp_tokens = [(t.kind, t.text) for t in stmt_toks(s) if t.kind not in ("label", "cname")]
+        if s.name:
+            exp_tokens = exp_tokens[1:]
+        lay.expect.append(Expect(exp_tokens, label, s.name, first_line, last_line, s))
+        for ctext, cl in inner_comments:
+            lay.comments.append((ctext, cl, len(lay.expect) - 1))
+        if tc:
+            lay.comments.append((tc, last_line, len(lay.expect) - 1))
+    return lay
